@@ -86,9 +86,14 @@ void ezc3d::DataNS::AnalogsNS::SubFrame::channel(const ezc3d::DataNS::AnalogsNS:
     if (idx == SIZE_MAX)
         _channels.push_back(channel);
     else{
-        if (idx >= nbChannels())
+        if (idx >= nbChannels()){
+            // The channel sent may be one of this collection (e.g. subframe.channel(0)), which moves when the collection grows
+            ezc3d::DataNS::AnalogsNS::Channel copy(channel);
             _channels.resize(idx+1);
-        _channels[idx] = channel;
+            _channels[idx] = copy;
+        }
+        else
+            _channels[idx] = channel;
     }
 }
 
